@@ -20,6 +20,7 @@ def _depth_walk(fn: ast.FunctionDef, start: int):
     Returns dict(final=k, save_key=k|None, pop_key=k|None, order=[...]) or None if not straight-line."""
     k = start
     out = {"save_key": None, "pop_key": None, "order": [], "saved_value": None}
+    temps = {}
     for st in fn.body:
         if isinstance(st, ast.Expr) and isinstance(st.value, ast.Constant):
             continue  # docstring
@@ -42,7 +43,7 @@ def _depth_walk(fn: ast.FunctionDef, start: int):
             if off is None:
                 return None
             out["save_key"] = k + off
-            out["saved_value"] = norm(st.value)
+            out["saved_value"] = temps.get(norm(st.value), norm(st.value))
             out["order"].append("save")
         elif isinstance(st, ast.Assign) and len(st.targets) == 1 and norm(st.targets[0]) == "self.state":
             v = st.value
@@ -60,8 +61,14 @@ def _depth_walk(fn: ast.FunctionDef, start: int):
                 out["pop_key"] = k + off
                 out["order"].append("restore-nopop")
             else:
-                out["set_value"] = norm(v)
+                out["set_value"] = temps.get(norm(v), norm(v))
                 out["order"].append("set")
+        elif isinstance(st, ast.Assign) and len(st.targets) == 1 and isinstance(st.targets[0], ast.Name) \
+                and isinstance(st.value, (ast.Attribute, ast.Name)):
+            # a temporary holding a plain read (current = self.state): remember what it denotes *at this point*
+            temps[st.targets[0].id] = temps.get(norm(st.value), norm(st.value))
+            if norm(st.value) == "self.state":
+                out["order"].append("read-state")
         elif isinstance(st, ast.Return):
             out["returns"] = st.value
             out["order"].append("return")
@@ -104,6 +111,8 @@ def r15_1(run):
         run.ob("R15.1", loc(en, en.node), en.short, "save of the current setting precedes the set", we["order"].index("save") < we["order"].index("set"),
                f"order {we['order']}" if we["order"].index("save") < we["order"].index("set") else
                "the setting is overwritten before it is saved: exit restores the scope's own value, not the outer one")
+        if "read-state" in we["order"] and "set" in we["order"] and we["order"].index("read-state") > we["order"].index("set"):
+            we["saved_value"] = "self.state read after the set"
         run.ob("R15.1", loc(en, en.node), en.short, "the saved value is the live setting (self.state)", we["saved_value"] == "self.state",
                "tracker[...] = self.state" if we["saved_value"] == "self.state" else f"saves {we['saved_value']}")
         run.ob("R15.1", loc(en, en.node), en.short, "the value set on entry is the class's _enter_set_value", we.get("set_value") == "self._enter_set_value",
